@@ -135,7 +135,8 @@ def probe_src(ws, names, rng, local_defs=None, kinds=None):
 
 
 def gen_workspace(root, rng, depth=None, n_names=None, venv=None, collisions=True, allow_imports=True,
-                  allow_redefine=True, allow_multiline=True, probe_kinds=None, module_pkg_twins=False, indirect_multi=False):
+                  allow_redefine=True, allow_multiline=True, probe_kinds=None, module_pkg_twins=False, indirect_multi=False,
+                  ws_plugin=None, two_entry=None):
     if indirect_multi:
         # (only for checks that judge the navigation target: the recorded span of a multi-name indirect string is the
         # whole literal - KF-C15-indirect-true-multi-name-span - which position-keyed comparisons cannot tell apart)
@@ -300,7 +301,7 @@ def gen_workspace(root, rng, depth=None, n_names=None, venv=None, collisions=Tru
             ws.files[rel] = ws.files[rel].rstrip("\n") + f"\n\ndef test_zlast({names[0]}): assert {names[0]}"
             ws.features.add(("no_final_newline",))
     if venv:
-        add_venv(ws, rng, names)
+        add_venv(ws, rng, names, ws_plugin=ws_plugin, two_entry=two_entry)
         # names that exist only in the plugin / third-party tiers are requested from every probe
         tier_names = ["tp_only", "builtin_thing", "both_tiers"] + (["wsp_only"] if ("workspace_plugin",) in ws.features else []) \
             + (["wsp_extra_fx", "wsp_shared_fx", "wsp_deep_fx"] if ("workspace_plugin_chain",) in ws.features else [])
@@ -311,7 +312,7 @@ def gen_workspace(root, rng, depth=None, n_names=None, venv=None, collisions=Tru
     return ws
 
 
-def add_venv(ws, rng, names, third_party=True, ws_plugin=None, builtin=True):
+def add_venv(ws, rng, names, third_party=True, ws_plugin=None, builtin=True, two_entry=None):
     sp = f".venv/lib/{PYVER}/site-packages"
     ws.site_rel.append(sp)
     ws.files[f".venv/pyvenv.cfg"] = "home = /usr/bin\n"
@@ -323,7 +324,7 @@ def add_venv(ws, rng, names, third_party=True, ws_plugin=None, builtin=True):
             body.append(s + "\n")
         ws.files[f"{sp}/tp_plug.py"] = "".join(body)
         eps = "tp = tp_plug\n"
-        if rng.random() < 0.5:
+        if (rng.random() < 0.5) if two_entry is None else two_entry:
             # the distribution registers a second plugin module that defines one of the names again
             s1, _ = fixture_src(ws, "tp_only", rng)
             s2, _ = fixture_src(ws, "tp_b_only", rng)
